@@ -318,6 +318,10 @@ REPLAY = {"walk": replay_walk}
 
 def main(argv):
     signal.signal(signal.SIGALRM, _alarm)
+    try:
+        resource.setrlimit(resource.RLIMIT_AS, (3 * 2 ** 30, 3 * 2 ** 30))
+    except Exception:
+        pass
     if argv and argv[0] == "--replay":
         s = json.load(open(argv[1]))
         scen = s.get("scenario") or s
@@ -543,6 +547,138 @@ def suite_types(out, tier, seed):
 SUITES.update({"ops": suite_ops, "ops-C04": lambda o, t, s: suite_ops(o, t, s, "C04"), "ops-C07": lambda o, t, s: suite_ops(o, t, s, "C07"),
                "ops-C08": lambda o, t, s: suite_ops(o, t, s, "C08"), "ops-C15": lambda o, t, s: suite_ops(o, t, s, "C15"),
                "types": suite_types})
+
+
+
+# ============================================================================ malformed (C20): mutation sweep with a resource budget
+
+def suite_malformed(out, tier, seed):
+    """Every truncation, single-bit flips and byte substitutions at TLV header positions of valid v2c/v3 responses and
+    discovery replies: processing must end (result or exception) within a CPU/memory budget, and the SAME client must
+    then complete a valid request."""
+    rnd = random.Random(seed)
+    db = [((1, 3, 1, i, 0), ("int", ber.INT, i)) for i in range(1, 4)]
+
+    def header_positions(data):
+        pos, out_ = [], []
+        stack = [(0, len(data))]
+        while stack:
+            a, b = stack.pop()
+            p = a
+            while p < b:
+                try:
+                    tag = data[p]
+                    ln, start = ber.dec_len(data, p + 1)
+                except Exception:
+                    break
+                out_.extend(range(p, start))
+                if tag & 0x20 or tag == 0x04:
+                    if tag & 0x20:
+                        stack.append((start, min(start + ln, b)))
+                p = start + ln
+        return sorted(set(out_))
+
+    def mutants(data):
+        hp = header_positions(data)
+        ms = []
+        for cut in range(0, len(data)):
+            ms.append(("truncate", cut, data[:cut]))
+        for p in hp:
+            for val in (0x80, 0x81, 0x82, 0x84, 0xff, 0x00, 0x7f, 0x30, 0x04):
+                ms.append(("subst", (p, val), data[:p] + bytes([val]) + data[p + 1:]))
+            for bit in range(8):
+                ms.append(("flip", (p, bit), data[:p] + bytes([data[p] ^ (1 << bit)]) + data[p + 1:]))
+        for _ in range(20):
+            ms.append(("random", None, bytes(rnd.randrange(256) for _ in range(rnd.randint(0, 60)))))
+        if tier == "quick":
+            rnd.shuffle(ms)
+            ms = ms[:40]
+        return ms
+
+    def d15_pattern(data, a=0, b=None, depth=0):
+        """x690's walk meets a length octet 0x80 with no 00 00 at or after the value's index (finding D15)"""
+        b = len(data) if b is None else b
+        p = a
+        while p + 1 < b and depth < 8:
+            tag, l0 = data[p], data[p + 1]
+            if l0 == 0x80:
+                return data.find(b"\x00\x00", p) == -1 or True
+            if l0 < 0x80:
+                ln, start = l0, p + 2
+            else:
+                k = l0 & 0x7F
+                ln, start = int.from_bytes(data[p + 2:p + 2 + k], "big"), p + 2 + k
+            if (tag & 0x20 or tag == 0x04) and d15_pattern(data, start, min(start + ln, b), depth + 1):
+                return True
+            if start + ln <= p:
+                return False
+            p = start + ln
+        return False
+    configs = [("v2c", None), ("v3", None), ("v3", ("md5", b"authpass1")), ("v3-discovery", None)]
+    for cfg, auth in configs:
+        if cfg == "v2c":
+            base_agent = agent.CommunityAgent(db)
+            creds = V2C("public")
+        else:
+            base_agent = agent.V3Agent(db, auth=auth)
+            creds = V3("user", Auth(auth[1], auth[0]) if auth else None)
+        # one authentic exchange to obtain the bytes to mutate
+        cap = {}
+
+        async def tap(endpoint, data, timeout=1, loop=None, retries=10):
+            reply = await base_agent(endpoint, data)
+            is_disco = cfg.startswith("v3") and ber.parse_v3_message(data)["user"] == b""
+            cap.setdefault("discovery" if is_disco else "response", reply)
+            return reply
+        run(Client("127.0.0.1", creds, sender=tap).get(OID("1.3.1.1.0")))
+        target = "discovery" if cfg == "v3-discovery" else "response"
+        for kind, where, mutated in mutants(cap[target]):
+            state = {"armed": True}
+
+            async def sender(endpoint, data, timeout=1, loop=None, retries=10, mutated=mutated, state=state):
+                reply = await base_agent(endpoint, data)
+                is_disco = cfg.startswith("v3") and ber.parse_v3_message(data)["user"] == b""
+                if state["armed"] and (("discovery" if is_disco else "response") == target):
+                    state["armed"] = False
+                    return mutated
+                return reply
+            c = Client("127.0.0.1", creds, sender=sender)
+            out.case((cfg, kind, str(where)))
+            scen = {"kind": "malformed", "config": cfg, "auth": bool(auth), "mutation": kind, "where": where, "datagram": mutated.hex()}
+            indefinite = d15_pattern(mutated)
+            t0 = time.process_time()
+            signal.alarm(2)
+            try:
+                try:
+                    run(c.get(OID("1.3.1.1.0")))
+                except TimeoutError:
+                    out.fail(scen, "no end within 2 s of CPU/wall time", "a result or an exception within the budget",
+                             finding="D15" if indefinite else None)
+                    continue
+                except MemoryError:
+                    out.fail(scen, "memory budget exceeded", "bounded memory", finding="D15" if indefinite else None)
+                    continue
+                except Exception:
+                    pass
+            finally:
+                signal.alarm(0)
+            if time.process_time() - t0 > 1.0:
+                out.fail(scen, "%.1f s CPU" % (time.process_time() - t0), "time bounded by a small multiple of the datagram size")
+            # the same client must be usable for the next (valid) request
+            signal.alarm(2)
+            try:
+                got = run(c.get(OID("1.3.1.2.0")))
+                if got.value != 2:
+                    out.fail(scen, "follow-up request returned %r" % (got,), "Integer(2)")
+            except TimeoutError:
+                out.fail(scen, "follow-up request hangs", "the client is usable for the next request", finding="D15" if indefinite else None)
+            except Exception as e:  # noqa
+                out.fail(scen, "follow-up request failed: %s: %s" % (type(e).__name__, e), "the client is usable for the next request")
+            finally:
+                signal.alarm(0)
+
+
+SUITES["malformed"] = suite_malformed
 
 
 if __name__ == "__main__":
